@@ -57,6 +57,20 @@ InKind(v, k) ==
          /\ \A f \in (DOMAIN k.obj.kn) \ (DOMAIN v.m) : AdmitsUndefined(k.obj.kn[f])
     [] OTHER -> PrimTag(v) \in KPrims(k)
 
+\* Kind::default_value (src/compiler/value/kind.rs): the value stored in `ok` when the right-hand
+\* side of `ok, err = e` fails - the zero value of e's type when that type is exactly one kind.
+OnlyPrim(k, p) == KPrims(k) = {p} /\ ~HasArr(k) /\ ~HasObj(k)
+DefaultOfKind(k) ==
+  CASE OnlyPrim(k, "bytes")     -> Str("")
+    [] OnlyPrim(k, "integer")   -> IntV(0)
+    [] OnlyPrim(k, "float")     -> [t |-> "float", b |-> <<0, 0, 0, 0>>]
+    [] OnlyPrim(k, "boolean")   -> Bool(FALSE)
+    [] OnlyPrim(k, "timestamp") -> [t |-> "ts", s |-> "1970-01-01T00:00:00.000000000Z"]
+    [] OnlyPrim(k, "regex")     -> [t |-> "regex", s |-> ""]
+    [] KPrims(k) = {} /\ HasArr(k) /\ ~HasObj(k) -> EmptyArr
+    [] KPrims(k) = {} /\ ~HasArr(k) /\ HasObj(k) -> EmptyObj
+    [] OTHER -> Null
+
 \* absence (a missing field / an unset variable) is the value `undefined`
 InKindOrAbsent(v, k) == IF IsNone(v) THEN AdmitsUndefined(k) ELSE InKind(v, k)
 
